@@ -396,6 +396,31 @@ theorem unclosed_block_comment_rejected (a b : Bytes) (q : PState) (ha : loop in
   | none => simp [hp] at this
   | some p2 => simpa [hp] using this
 
+open AslProofs.XdlCmt in
+/-- a `/` at any such position that is followed by a byte other than `/` and `*` makes the whole text invalid,
+    whatever comes after it (`[1]/x`, `[1/2]`, `{a/b=1}`) -/
+theorem lone_slash_rejected (a rest : Bytes) (c : UInt8) (q : PState) (ha : loop init a = some (false, q))
+    (hc : q.inComment = false) (h1 : q.state ≠ .STRING) (h2 : q.state ≠ .QPROPERTY) (h3 : q.state ≠ .ESCAPE)
+    (c1 : c ≠ 47) (c2 : c ≠ 42) (c0 : c ≠ 0) (na : (0 : UInt8) ∉ a) (nr : (0 : UInt8) ∉ rest) :
+    decode (a ++ 47 :: c :: rest) = some none := by
+  obtain ⟨f, q', hl, hi, _⟩ := loop_ok a init inv_init
+  rw [ha] at hl; cases hl
+  have ho := outside_of_inv q hi hc h1 h2 h3
+  obtain ⟨e, he, hle⟩ := slash_other q ho c c1 c2 rest
+  have n1 : (0 : UInt8) ∉ a ++ 47 :: c :: rest := by simp [na, nr, Ne.symm c0]
+  obtain ⟨f2, qf, hlf, hif, _⟩ := loop_ok (a ++ 47 :: c :: rest) init inv_init
+  have hlf' := hlf
+  simp only [loop_append, ha, hle] at hlf'
+  have hfe : qf.state = .ERR := loop_err rest e f2 qf he hlf'
+  have e1 : parse init (a ++ 47 :: c :: rest) = some qf := by
+    simp only [parse, show init.state ≠ .ERR by decide, if_false, cstr_of_nonul _ n1, hlf]
+    rfl
+  have e2 : parse qf [32] = some qf := by simp [parse, hfe]
+  have e3 : value qf = none := by simp [value, hfe]
+  simp [decode, decodeFrom, e1, e2, e3]
+
+example : decode [91, 49, 47, 50, 93] = some none := by rfl                                         -- [1/2]
+
 /-- texts related by removing comments one at a time (each one of the grammar, at a position outside strings,
     in any order - the prefix before the removed comment may itself still hold comments) -/
 inductive StripsTo : Bytes → Bytes → Prop
